@@ -47,6 +47,7 @@ pub fn run(run: &RunInfo) -> Summary {
                 eod_menu: (0..=255u8).map(Eod::Abort).collect(),
                 noise: false,
                 delay_ms: 0,
+                focus19: true,
             }
         } else {
             HistParams {
@@ -54,12 +55,13 @@ pub fn run(run: &RunInfo) -> Summary {
                 depth: if noisy || slow > 0 { depth - 1 } else { depth },
                 ops: all_ops.clone(),
                 dangling,
-                reservation_menu: vec![Outcome::Ok, Outcome::Abort(0x6c)],
+                reservation_menu: vec![Outcome::Ok, Outcome::Abort(0x6c), Outcome::StatusThenAbort(0x6c)],
                 commit_menu: vec![Outcome::Ok, Outcome::NoStatus, Outcome::Abort(0x6c)],
                 cancel_menu: vec![Outcome::Ok, Outcome::Abort(0xb4)],
                 eod_menu: vec![Eod::Completion, Eod::StatusCompletion, Eod::Abort(0xa0), Eod::Abort(0x6c), Eod::Abort(0xff)],
                 noise: noisy,
                 delay_ms: slow,
+                focus19: true,
             }
         };
         let st = dbx::explore(if noisy { 1 } else { 0 }, 200_000_000, |ctx| {
@@ -79,6 +81,41 @@ pub fn run(run: &RunInfo) -> Summary {
             acc.count("capped", 1);
         }
     });
+    // every receipt number 0..=9999 as the dangling pre-authorisation the terminal reports, on the
+    // shortest histories that go idle
+    if !skip_for_replay(run, "c19/dangling-sweep/") {
+        let a = par_for(100, |chunk, acc| {
+            for d in (chunk as u32 * 100)..(chunk as u32 * 100 + 100) {
+                let p = HistParams {
+                    max: 1,
+                    depth: 2,
+                    ops: vec![crate::client::Op::Begin("A".into()), crate::client::Op::Commit("A".into(), 0), crate::client::Op::Cancel("A".into())],
+                    dangling: Some(d),
+                    reservation_menu: vec![Outcome::Ok],
+                    commit_menu: vec![Outcome::Ok],
+                    cancel_menu: vec![Outcome::Ok],
+                    eod_menu: vec![Eod::Completion],
+                    noise: false,
+                    delay_ms: 0,
+                    focus19: true,
+                };
+                dbx::explore(0, 1_000_000, |ctx| {
+                    let o = history(ctx, &p, Some(0), acc);
+                    acc.count("executions", 1);
+                    acc.count("dangling_sweep", 1);
+                    if !o.c19.is_empty() {
+                        let choices = ctx.choices();
+                        acc.violation(viol(
+                            format!("c19/dangling-sweep/receipt={d}/choices={choices:?}"),
+                            format!("transactions_max_num = 1, dangling pre-authorisation at the terminal: receipt {d}\nhistory:\n  {}\nviolations:\n  {}", o.trace.join("\n  "), o.c19.join("\n  ")),
+                            o.trace.len() as u64,
+                        ));
+                    }
+                });
+            }
+        });
+        acc.merge(a);
+    }
     if run.replay_only.is_none() || run.replay_only.as_ref().map(|r| r["key"].as_str().unwrap_or("").contains("/bfs/")).unwrap_or(false) {
         for max in 1..=2usize {
             for dangling in [None, Some(7u32)] {
@@ -87,12 +124,13 @@ pub fn run(run: &RunInfo) -> Summary {
                     depth: 0,
                     ops: all_ops.clone(),
                     dangling,
-                    reservation_menu: vec![Outcome::Ok, Outcome::Abort(0x6c)],
+                    reservation_menu: vec![Outcome::Ok, Outcome::Abort(0x6c), Outcome::StatusThenAbort(0x6c)],
                     commit_menu: vec![Outcome::Ok, Outcome::NoStatus, Outcome::Abort(0x6c)],
                     cancel_menu: vec![Outcome::Ok, Outcome::Abort(0xb4)],
                     eod_menu: vec![Eod::Completion, Eod::StatusCompletion, Eod::Abort(0xa0), Eod::Abort(0x6c), Eod::Abort(0xff)],
                     noise: false,
                     delay_ms: 0,
+                    focus19: true,
                 };
                 let (levels, states, transitions, fix) = bfs(&p, 12, &format!("c19/max={max}/dangling={dangling:?}"), |o| &o.c19, &mut acc);
                 acc.count("bfs_states", states as u64);
@@ -125,7 +163,7 @@ pub fn run(run: &RunInfo) -> Summary {
         transitions: acc.get("transitions"),
         traces_validated: execs,
         distinct_nontrivial: acc.get("w_idle_cleanups") + acc.get("w_closed_while_others_open"),
-        rule: format!("real Feig client against the simulated terminal: transactions_max_num 1..=2 x terminal ledger {{no dangling pre-authorisation, one}} x all histories of depth {depth} over begin/commit/cancel x tokens {{A,B}} + read_card, terminal outcomes chosen lazily (reservation: success/abort; commit: completion with status, completion without status, abort; cancel: completion/abort; end-of-day: completion, status+completion, abort A0, 6C, FF); a second pass at depth - 1 with every single deviation of the reply shape of any exchange (no / two intermediate statuses, a print line, an extra status information); a pass at depth - 1 against a slow terminal whose every reply packet takes 45 s resp. 59 s (inside the per-packet time-out); a state-deduplicated breadth-first search from every reachable state until no new state appears; plus all 256 end-of-day abort codes on the histories begin;commit and begin;cancel with and without a dangling pre-authorisation. Temporal oracle on the terminal's request log. distinct_nontrivial = steps at which the clean-up rule or the no-end-of-day rule applied"),
+        rule: format!("real Feig client against the simulated terminal: transactions_max_num 1..=2 x terminal ledger {{no dangling pre-authorisation, one}} x all histories of depth {depth} over begin/commit/cancel x tokens {{A,B}} + read_card, terminal outcomes chosen lazily (reservation: success / abort / status information naming a receipt number followed by an abort; commit: completion with status, completion without status, abort; cancel: completion/abort; end-of-day: completion, status+completion, abort A0, 6C, FF); a second pass at depth - 1 with every single deviation of the reply shape of any exchange (no / two intermediate statuses, a print line, an extra status information); a pass at depth - 1 against a slow terminal whose every reply packet takes 45 s resp. 59 s (inside the per-packet time-out); a state-deduplicated breadth-first search from every reachable state until no new state appears; plus every dangling receipt number 0..=9999 and all 256 end-of-day abort codes on the histories begin;commit and begin;cancel with and without a dangling pre-authorisation. Temporal oracle on the terminal's request log. distinct_nontrivial = steps at which the clean-up rule or the no-end-of-day rule applied"),
         exhaustive: true,
         required_witnesses: vec![
             "the state-deduplicated search reached its fixed point".into(),
